@@ -71,7 +71,7 @@ def handle (op : String) (args : List String) : Option String :=
   | "c20.parse", [s] => some <| match bytes? s with
       | some s => showExcept (parseString s) | none => "bad-arg"
   | "c20.rt", [v] => some <| match bytes? v with
-      | some v => s!"{showBool (wfValue v)} {hex (formatString v)} {showExcept (parseString (formatString v))}"
+      | some v => s!"{hex (formatString v)} {showExcept (parseString (formatString v))}"
       | none => "bad-arg"
   | "c20.escsub", [s] => some <| match bytes? s with
       | some s => showExcept (escapeSubsection s) | none => "bad-arg"
